@@ -320,7 +320,14 @@ def gen_eval_records(rng, n_random, exhaustive_shapes, cfg_fn, max_vox=48, pair_
                     rnew = rng.randint(200, 250)
                     ref = np.where(ref == r0, rnew, ref)
                     pred = np.where(pred == p0, 256 - rnew, np.where(pred == 256 - rnew, p0, pred))
-        recs.append(rec_evaluate(pred, ref, cfg, meta={"gen": g}))
+        dtype = np.uint8
+        if g == "random" and rng.random() < 0.3:
+            # wider dtypes with label values that are multiples of 256 / beyond 2^16
+            dtype = rng.choice([np.uint16, np.uint32, np.uint64] if cfg["input"] != "SEM" else [np.uint16, np.int32, np.int64, np.uint32])
+            k = rng.choice([256, 256, 65536 if dtype != np.uint16 else 512, 3])
+            pred, ref = pred.astype(np.int64) * k, ref.astype(np.int64) * k
+            g = f"random-wide-x{k}"
+        recs.append(rec_evaluate(pred, ref, cfg, dtype=dtype, meta={"gen": g}))
     return recs
 
 
@@ -407,7 +414,8 @@ def directly_constructed_results(rng, n):
             proj = project_result(res, cfg2, 24)
         cfg["gm"] = ["DSC"]
         proj["glob"] = {"DSC": {"k": "skip", "v": [0, 1]}}
-        recs.append({"shape": [1], "pred": [0], "ref": [0], "cfg": cfg, "out": "ok", "res": proj,
+        recs.append({"shape": [1], "pred": [0], "ref": [0], "cfg": cfg, "out": "ok", "res": proj, "glabels": [], "gall": [],
+                     "gkind": "plain", "rel": "none", "outb": "ok", "resb": proj,
                      "meta": {"gen": "direct", "dtype": "none", "nref": nref, "npred": npred, "tp": tp, "lists": lists}})
     return recs
 
